@@ -22,6 +22,9 @@ const (
 
 type stagedProp interface {
 	CommitStaged()
+	DiscardStaged()
+	RollbackCommitted()
+	NotifyCommitted()
 }
 
 type StagedConfigProp interface {
@@ -56,10 +59,11 @@ func setPropsFromMapRecursive(val reflect.Value, updates map[string]any) (staged
 				// If the value is a map, it's a nested update
 				if nestedUpdates, ok := value.(map[string]any); ok {
 					nestedStaged, err := setPropsFromMapRecursive(fieldVal.Addr(), nestedUpdates)
-					if err != nil {
-						return nil, err
-					}
+					// Also on error: the caller has to discard what was staged so far
 					stagedProps = append(stagedProps, nestedStaged...)
+					if err != nil {
+						return stagedProps, err
+					}
 					break
 				}
 
@@ -69,11 +73,11 @@ func setPropsFromMapRecursive(val reflect.Value, updates map[string]any) (staged
 					if prop, ok := fieldAddr.Interface().(StagedConfigProp); ok {
 						valueBytes, err := json.Marshal(value)
 						if err != nil {
-							return nil, err
+							return stagedProps, err
 						}
 
 						if err := prop.UnmarshalJSONStaged(valueBytes); err != nil {
-							return nil, err
+							return stagedProps, err
 						}
 
 						stagedProps = append(stagedProps, prop)
@@ -107,6 +111,10 @@ func UpdatePartialFromConfig(cfg *Config, updates map[string]any) (UpdateStatus,
 	stagedProps, err := setPropsFromMapRecursive(reflect.ValueOf(cfg), updates)
 	if err != nil {
 		slog.Error("Failed to set properties from map", "error", err)
+		// Nothing has been committed yet: drop what the earlier keys of the document staged.
+		for _, prop := range stagedProps {
+			prop.DiscardStaged()
+		}
 		return UpdateStatusFailed, fmt.Errorf("%w: %v", ErrUpdateFailed, err)
 	}
 
@@ -116,14 +124,29 @@ func UpdatePartialFromConfig(cfg *Config, updates map[string]any) (UpdateStatus,
 		prop.CommitStaged()
 	}
 
+	// A rejected or failed update must leave everything as it was: put the old values back.
+	// Subscribers have not been told anything yet.
+	rollback := func() {
+		for _, prop := range stagedProps {
+			prop.RollbackCommitted()
+		}
+	}
+
 	if err := cfg.verify(); err != nil {
 		slog.Error("Updated config failed verification", "error", err)
+		rollback()
 		return UpdateStatusFailed, fmt.Errorf("%w: %v", ErrUpdateFailed, err)
 	}
 
 	if err := cfg.persist(); err != nil {
 		slog.Error("Failed to persist updated config", "error", err)
+		rollback()
 		return UpdateStatusFailed, fmt.Errorf("%w: %v", ErrUpdateFailed, err)
+	}
+
+	// The update is verified and saved: now the running components get to know about it.
+	for _, prop := range stagedProps {
+		prop.NotifyCommitted()
 	}
 
 	status := UpdateStatusSuccess
